@@ -3,7 +3,8 @@ use crate::rng::Rng;
 use crate::tok::{R, W};
 use bed_utils::bed::GenomicRange;
 
-pub const CHROMS: &[&str] = &["chr1", "chr2", "chr10", "chr", "c", "chrX", "chr1_alt"];
+pub const CHROMS: &[&str] = &["chr1", "chr2", "chr10", "chr", "c", "chrX", "chr1_alt", "chrUn_KI270302v1_a", "HLA-DRB1*15:01:01:01",
+    "scaffold_0000000000000000000000000000000000000000000000000000000000000001"];
 /// names that are DIFFERENT chromosomes but equal under some common normalisation of another name in the pool
 /// (leading zeros inside a digit run, letter case, surrounding white space, Unicode look-alikes, prefix/suffix)
 pub const CHROM_VARIANTS: &[(&str, &[&str])] = &[
@@ -14,6 +15,15 @@ pub const CHROM_VARIANTS: &[(&str, &[&str])] = &[
     ("c", &["C", "c ", "\u{441}"]),
     ("chrX", &["chrx", "chrX ", "chr23", "X"]),
     ("chr1_alt", &["chr01_alt", "chr1_ALT", "chr1_alt2"]),
+    // long names that agree on a long prefix (8, 16, 32, 64 bytes) or on a long suffix, or differ only in length
+    ("chrUn_KI270302v1_a", &["chrUn_KI270302v1_b", "chrUn_KI270302v1_aa", "chrUn_KI270302v1_", "chrUn_KI270302v1", "chrUn_KI270302v2_a", "chrUn_KJ270302v1_a", "ahrUn_KI270302v1_a"]),
+    ("HLA-DRB1*15:01:01:01", &["HLA-DRB1*15:01:01:02", "HLA-DRB1*15:01:01:011", "HLA-DRB1*15:01:01:0", "HLA-DRB1*15:01:02:01", "HLA-DRB1*15:01:01:01 "]),
+    ("scaffold_0000000000000000000000000000000000000000000000000000000000000001", &[
+        "scaffold_0000000000000000000000000000000000000000000000000000000000000002",
+        "scaffold_00000000000000000000000000000000000000000000000000000000000000001",
+        "scaffold_0000000000000000000000000000000100000000000000000000000000000001",
+        "scaffold_000000000000000000000000000000000000000000000000000000000000001",
+        "Scaffold_0000000000000000000000000000000000000000000000000000000000000001"]),
 ];
 /// `n` chromosome names: from the pool; each further one is, half of the time, a near-miss variant of an earlier one
 pub fn gen_chroms(rng: &mut Rng, n: usize) -> Vec<&'static str> {
@@ -206,14 +216,26 @@ pub fn shrink_flavoured(t: &[String], inner: impl Fn(&[String]) -> Vec<Vec<Strin
 /// `by_ref().count()` compared with the remaining length (the items themselves re-read by a second pass are
 /// not available, so this mode returns what it saw plus `None` markers — use only with `drain_checked`).
 pub fn drain_mode<I: Iterator>(mut it: I, mode: u64) -> Vec<I::Item> {
+    // an iterator that never ends (a broken `nth`, say) must not exhaust memory: it is cut off and reported
+    const CAP: usize = 120_000;
     let k = ((mode / 8) % 3 + 1) as usize;
-    match mode % 5 {
-        0 => it.collect(),
-        1 => { let mut v = vec![]; while let Some(x) = it.next() { v.push(x); } assert!(it.next().is_none() && it.next().is_none(), "iterator yields again after None"); v }
-        2 => { let mut v = vec![]; for _ in 0..k { match it.next() { Some(x) => v.push(x), None => return v } } it.fold(v, |mut v, x| { v.push(x); v }) }
-        3 => { let mut v = vec![]; for _ in 0..k { match it.next() { Some(x) => v.push(x), None => return v } } it.for_each(|x| v.push(x)); v }
-        _ => { let mut v = vec![]; loop { let (lo, hi) = it.size_hint(); match it.next() { Some(x) => { assert!(hi.map_or(true, |h| h >= 1), "size_hint upper bound 0 but an item follows"); let _ = lo; v.push(x); } None => { assert!(lo == 0, "size_hint lower bound {} but the iterator is exhausted", lo); break; } } } v }
+    let mut v = vec![];
+    macro_rules! push { ($x:expr) => {{ assert!(v.len() < CAP, "iterator yielded more than {} items", CAP); v.push($x); }}; }
+    match mode % 10 {
+        0 => { for x in it { push!(x); } }
+        1 => { while let Some(x) = it.next() { push!(x); } assert!(it.next().is_none() && it.next().is_none(), "iterator yields again after None"); }
+        2 => { for _ in 0..k { match it.next() { Some(x) => push!(x), None => return v } } return it.fold(v, |mut v, x| { assert!(v.len() < CAP, "iterator yielded more than {} items", CAP); v.push(x); v }); }
+        3 => { for _ in 0..k { match it.next() { Some(x) => push!(x), None => return v } } it.for_each(|x| push!(x)); }
+        // 5: a few `next()`, then `nth(0)` until None; 6: `next()` and `nth(0)` alternating; 7: `by_ref().take(k)` then the rest;
+        // 8: a few `next()`, then `find(|_| true)` until None (try_fold); 9: a few `next()`, then `by_ref().step_by(1)`
+        5 => { for _ in 0..k { match it.next() { Some(x) => push!(x), None => return v } } while let Some(x) = it.nth(0) { push!(x); } }
+        6 => { loop { match it.next() { Some(x) => push!(x), None => break } match it.nth(0) { Some(x) => push!(x), None => break } } }
+        7 => { for x in it.by_ref().take(k) { push!(x); } for x in it { push!(x); } }
+        8 => { for _ in 0..k { match it.next() { Some(x) => push!(x), None => return v } } while let Some(x) = it.find(|_| true) { push!(x); } }
+        9 => { for _ in 0..k { match it.next() { Some(x) => push!(x), None => return v } } for x in it.by_ref().step_by(1) { push!(x); } }
+        _ => { loop { let (lo, hi) = it.size_hint(); match it.next() { Some(x) => { assert!(hi.map_or(true, |h| h >= 1), "size_hint upper bound 0 but an item follows"); let _ = lo; push!(x); } None => { assert!(lo == 0, "size_hint lower bound {} but the iterator is exhausted", lo); break; } } } }
     }
+    v
 }
 /// consumption mode of a case: a function of its tokens (so that it replays), spread over the modes
 pub fn mode_of(t: &[String]) -> u64 {
